@@ -70,6 +70,19 @@ pub fn number_words(l: L) -> Vec<String> {
     out
 }
 
+/// Ambiguity triggers and the function words that sit next to numbers (articles, "half", "dozen", "pair").
+pub fn function_words(l: L) -> &'static [&'static str] {
+    match l {
+        L::En => &["o", "a", "an", "the", "of", "no", "half", "dozen", "couple", "pair"],
+        L::Fr => &["un", "le", "du", "l'", "numéro", "une", "la", "les", "de", "des", "demi", "douzaine", "paire"],
+        L::Es => &["el", "la", "de", "medio", "media", "docena", "par"],
+        L::Pt => &["uma", "o", "a", "de", "meio", "meia", "dúzia", "par"],
+        L::It => &["il", "la", "di", "mezzo", "mezza", "dozzina", "paio"],
+        L::De => &["eine", "einen", "einer", "der", "die", "das", "halb", "dutzend", "paar"],
+        L::Nl => &["de", "het", "half", "dozijn", "paar"],
+    }
+}
+
 /// Σ_full: number words + ordinary words + linking words + ambiguity triggers + punctuation.
 pub fn sigma_full(l: L) -> Vec<String> {
     let mut out = number_words(l);
@@ -89,15 +102,7 @@ pub fn sigma_full(l: L) -> Vec<String> {
     }
     // ambiguity triggers, plus the function words that sit next to numbers (articles, "half",
     // "dozen", "pair"): the words a vocabulary extension would most plausibly involve
-    let extra: &[&str] = match l {
-        L::En => &["o", "a", "an", "the", "of", "no", "half", "dozen", "couple", "pair"],
-        L::Fr => &["un", "le", "du", "l'", "numéro", "une", "la", "les", "de", "des", "demi", "douzaine", "paire"],
-        L::Es => &["el", "la", "de", "medio", "media", "docena", "par"],
-        L::Pt => &["uma", "o", "a", "de", "meio", "meia", "dúzia", "par"],
-        L::It => &["il", "la", "di", "mezzo", "mezza", "dozzina", "paio"],
-        L::De => &["eine", "einen", "einer", "der", "die", "das", "halb", "dutzend", "paar"],
-        L::Nl => &["de", "het", "half", "dozijn", "paar"],
-    };
+    let extra: &[&str] = function_words(l);
     for w in extra {
         if !out.iter().any(|x| x == w) {
             out.push(w.to_string());
